@@ -34,9 +34,22 @@ var solvers = []solverSpec{
 		return []string{"z3", fmt.Sprintf("-T:%d", t), fmt.Sprintf("smt.random_seed=%d", seed), fmt.Sprintf("sat.random_seed=%d", seed), f}
 	}},
 	{"cvc5", func(f string, t int, seed int) []string {
-		return []string{"cvc5", "--incremental", fmt.Sprintf("--tlimit=%d", t*1000), fmt.Sprintf("--seed=%d", seed), f}
+		// --enum-inst: enumerative instantiation when E-matching saturates (without it cvc5 answers `unknown` at once on
+		// almost every quantified goal; with it it proves goals both z3 versions lose in instantiation detours)
+		return []string{"cvc5", "--incremental", "--enum-inst", fmt.Sprintf("--tlimit=%d", t*1000), fmt.Sprintf("--seed=%d", seed), f}
 	}},
 }
+
+// raceSolvers: the second stage adds two re-seeded z3 runs — quantifier instantiation is sensitive to irrelevant perturbations
+// (symbol numbering, an extra axiom), and a goal one seed loses in a matching detour another seed proves in under a second.
+var raceSolvers = append(append([]solverSpec{}, solvers...),
+	solverSpec{"z3-new/s7", func(f string, t int, seed int) []string {
+		return []string{"z3-new", fmt.Sprintf("-T:%d", t), fmt.Sprintf("smt.random_seed=%d", seed+7), fmt.Sprintf("sat.random_seed=%d", seed+7), f}
+	}},
+	solverSpec{"z3/s11", func(f string, t int, seed int) []string {
+		return []string{"z3", fmt.Sprintf("-T:%d", t), fmt.Sprintf("smt.random_seed=%d", seed+11), fmt.Sprintf("sat.random_seed=%d", seed+11), f}
+	}},
+)
 
 func runSolver(ctx context.Context, s solverSpec, file string, timeoutS int, seed int) (status string, out string, dur float64) {
 	args := s.args(file, timeoutS, seed)
@@ -97,6 +110,7 @@ func solve(file string, timeoutS int, seed int, crossCheck bool) SolveResult {
 	}
 	rctx, cancel := context.WithCancel(ctx)
 	defer cancel()
+	solvers := raceSolvers
 	ch := make(chan ans, len(solvers))
 	for _, s := range solvers {
 		s := s
